@@ -90,15 +90,29 @@ def c11_cases(tier, seed):
     shuf = [(l.split('|')[0], l.split('|')[1].split()) for l in ps.stdout.split('\n') if '|' in l]
     pe = run_harness(['epq', '--seed', seed, '--n', 40 if tier == 'quick' else 600])
     epq = [l.strip() for l in pe.stdout.split('\n') if l.strip()]
+    pm = run_harness(['mate-cands', '--seed', seed, '--n', 60 if tier == 'quick' else 1200, '--seeds', os.path.join(ROOT, 'seeds')], timeout=3000)
+    mcands = [l.strip() for l in pm.stdout.split('\n') if l.strip()]
     cases = []
     n = 145 if tier == 'quick' else 1500
+    tiny = [f for f in sparse if sum(1 for ch in f.split()[0] if ch.isalpha()) <= 4]
     while len(cases) < n:
         r = rng.random()
-        if r < 0.10 and epq:
+        if r < 0.05 and tiny:
+            # the smallest endgames, searched deeper than anything else here (pruning that sets in only at depth 5+)
+            fen = rng.choice(tiny)
+            hist = []
+            depth = rng.choice([5, 5, 6])
+        elif r < 0.10 and epq:
             # a double pawn push next to an enemy pawn: the en-passant capture arises at the horizon (quiescence)
             fen = rng.choice(epq)
             hist = []
             depth = rng.choice([1, 1, 2])
+        elif r < 0.17 and mcands:
+            # overwhelming material: several forced mates of different lengths below one node (mate scores meet
+            # null windows and re-searches)
+            fen = rng.choice(mcands)
+            hist = []
+            depth = 3
         elif r < 0.24 and shuf:
             # a shuffle in a position with a material imbalance: the reply that repeats the position is a draw
             # for the side that is behind (clock small, so only the repetition rule can see it)
@@ -139,6 +153,13 @@ def c11_cases(tier, seed):
             hist = []
             depth = rng.choice([1, 2])
         cases.append({'id': len(cases), 'fen': fen, 'hist': hist, 'depth': depth})
+    # forced mates in two from sparse random material, depth 3: a longer (checking) mate is often visible in the same
+    # iteration, so mate scores meet null windows, re-searches and cut-offs (small trees: many of them are affordable)
+    pm2 = run_harness(['mate-cands', '--seed', seed + 17, '--n', 110 if tier == 'quick' else 2500, '--only', 'm2',
+                       '--seeds', os.path.join(ROOT, 'seeds')], timeout=6000)
+    for l in pm2.stdout.split('\n'):
+        if l.strip():
+            cases.append({'id': len(cases), 'fen': l.strip(), 'hist': [], 'depth': 3, 'm2': True})
     return cases
 
 
@@ -224,7 +245,8 @@ def run_c11(tier, seed, verdict, cov):
     cov['samples'] = samples
     # node-level contract: every child search of the real search returns a value that is sound for its window
     # (exact inside, a true bound outside) with respect to LookVal / Quiesce of that node
-    step_cases = [c for c in cases if c['depth'] <= 3][:90 if tier == 'quick' else 2500]
+    step_cases = [c for c in cases if c['depth'] <= 3 and not c.get('m2')][:90 if tier == 'quick' else 2500]
+    step_cases += [c for c in cases if c.get('m2')][:40 if tier == 'quick' else 800]
     schunks = [step_cases[i::parts] for i in range(parts)]
 
     def steps(i):
@@ -343,16 +365,40 @@ def run_c13(tier, seed, verdict, cov):
     sparse, corner, perft, bench, mates = positions()
     pool = [(f, 3) for f in sparse + mates] + [(f, 2) for f in corner + bench + perft] + [(f, 3) for f in bench[:20]]
     rng.shuffle(pool)
-    pool = pool[:14 if tier == 'quick' else 160] + [(f, 4) for f in rng.sample(bench, 3 if tier == 'quick' else 12)]
+    nbase = 14 if tier == 'quick' else 160
+    # candidates beyond the base selection: kept only if the root score RISES from one iteration to the next (then
+    # an interruption can find the running iteration ahead of the last completed one: the "partial result" branch)
+    extra = pool[nbase:nbase + (60 if tier == 'quick' else 400)] + [(f, 4) for f in mates]
+    pool = pool[:nbase] + [(f, 4) for f in rng.sample(bench, 3 if tier == 'quick' else 12)]
     # sizes of the uninterrupted searches
-    probe = [{'id': i, 'fen': f, 'hist': [], 'depth': dp, 'cache': 'fresh', 'group': i} for i, (f, dp) in enumerate(pool)]
+    probe = [{'id': i, 'fen': f, 'hist': [], 'depth': dp, 'cache': 'fresh', 'group': i} for i, (f, dp) in enumerate(pool + extra)]
     write_cases(os.path.join(d, 'probe.ndjson'), probe)
     run_harness(['search-trace', '--cases', os.path.join(d, 'probe.ndjson'), '--out', os.path.join(d, 'probe-out.ndjson')], timeout=3000)
     sizes = {}
+    allsizes = {}
+    rising = set()
+    cur = None
+    last = None
     for line in open(os.path.join(d, 'probe-out.ndjson')):
         e = json.loads(line)
-        if e.get('ev') == 'search' and e['nodes'] > 3:
-            sizes[(e['fen'], e['depth'])] = e['nodes']
+        if e.get('ev') == 'search':
+            cur = (e['fen'], e['depth'])
+            last = None
+            if e['nodes'] > 3:
+                allsizes[cur] = e['nodes']
+        elif e.get('ev') == 'ttwrite' and e.get('site') == 'root' and cur is not None:
+            if last is not None and e['score'] > last:
+                rising.add(cur)
+            last = e['score']
+    base_keys = set(pool)
+    nris = 0
+    for k, v in allsizes.items():
+        if k in base_keys:
+            sizes[k] = v
+        elif k in rising and nris < (6 if tier == 'quick' else 60) and v <= (2500 if tier == 'quick' else 60000):
+            sizes[k] = v
+            nris += 1
+    cov['positions_with_rising_root_score'] = len([k for k in sizes if k in rising])
     limit = 1500 if tier == 'quick' else 60000
     big = {k: v for k, v in sizes.items() if limit < v <= 150000}
     sizes = {k: v for k, v in sizes.items() if v <= limit}
@@ -360,7 +406,8 @@ def run_c13(tier, seed, verdict, cov):
     # a few large searches as well (tens of thousands of nodes): only sampled budgets and the asynchronous
     # interruptions, so that limits which are polled rarely or only deep in the tree are exercised too
     gid = max([c['group'] for c in cases] + [0])
-    for (fen, depth), sz in list(big.items())[:3 if tier == 'quick' else 20]:
+    bigl = sorted(big.items(), key=lambda kv: 0 if kv[0] in rising else 1)       # rising root scores first
+    for (fen, depth), sz in bigl[:3 if tier == 'quick' else 20]:
         gid += 1
         base = {'fen': fen, 'hist': [], 'depth': depth, 'group': gid, 'cache': 'fresh'}
         cases.append(dict(base))
@@ -669,6 +716,11 @@ def run_c12(tier, seed, verdict, cov):
                 plan += [([5], 3), ([5, 2], 4)]      # on top of a completed depth-5 search (costly: every fifth position)
         for pre, depth in plan:
             cases.append({'id': len(cases), 'fen': f, 'pre': pre, 'depth': depth})
+        # "once the engine has completed a 3-ply iteration": also a depth-4 search cut short by a node budget that
+        # falls inside its fourth iteration (three cut points; thorough: seven), from an empty cache (where the end
+        # of the third iteration is known exactly: the node count of the depth-3 search)
+        for cut in ([0.15, 0.5, 0.85] if tier == 'quick' else [0.05, 0.2, 0.35, 0.5, 0.65, 0.8, 0.95]):
+            cases.append({'id': len(cases), 'fen': f, 'pre': [], 'depth': 4, 'cut': cut})
     for f in wide:
         cases.append({'id': len(cases), 'fen': f, 'pre': [], 'depth': 3})
     fens = fens + wide
@@ -705,6 +757,9 @@ def run_c12(tier, seed, verdict, cov):
         else:
             e = read_events(f, r['line'])[-1]
             sig = {'kind': 'mate-level', 'fen': e['fen'], 'depth': e['depth'], 'pre': e['pre'], 'fails': r['fails']}
+            if e.get('budget', -1) != -1:
+                sig['node_budget'] = e['budget']
+                sig['cut'] = [c.get('cut') for c in cases if c['id'] == e['id']][0]
             verdict.report(sig, {'how': 'chosen move violates a clause of C12 evaluated by TLC on the 3-ply facts',
                                  'best': e['best'], 'score': e['score'], 'facts': e['facts']})
     cov['evaluations'] = len(cases)
